@@ -122,6 +122,7 @@ func (a *m03Agent) Signers() ([]ssh.Signer, error)                     { return 
 // ---- CA ------------------------------------------------------------------------
 
 type m03Signer struct {
+	during func() // what else happens while this request waits for the CA
 	fail   bool
 	shape  []bool // per returned key: true = certificate, false = plain key
 	issued []*ssh.Certificate
@@ -140,6 +141,11 @@ func h03Cert() *ssh.Certificate {
 }
 
 func (s *m03Signer) Sign(ctx context.Context, r *proto.SSHCertificateSigningRequest) ([]ssh.PublicKey, []string, error) {
+	if s.during != nil {
+		f := s.during
+		s.during = nil
+		f()
+	}
 	if s.fail {
 		return nil, nil, errors.New("model: CA failed")
 	}
